@@ -404,6 +404,7 @@ pub struct MInfo {
     pub sink_multi_group: usize,
     pub clone_conn_used: usize,
     pub queries_checked: usize,
+    pub qsource_multi: usize,
     pub too_big: bool,
     pub sched_fired: usize,
 }
@@ -413,6 +414,8 @@ pub enum Inj {
     Direct(u16, u8, RMsg),
     /// through source `src`
     Source(u16, RMsg),
+    /// query through query source `src`
+    QSource(u16, RMsg),
     /// init of every model
     Init,
 }
@@ -426,6 +429,8 @@ struct Phase<'a> {
     sinks: Option<&'a Vec<Vec<(u64, u16)>>>,
     /// observed reply of a process_query and its target
     pq: Option<(u16, RMsg, Option<(u16, u64, u16)>)>,
+    /// query through a query source: (source, message, replies taken from the receiver)
+    qs: Option<(u16, RMsg, Option<Vec<(u16, u64, u16)>>)>,
     /// expected sink writes of earlier phases that are drained together with this one
     extra_sinks: Option<&'a Vec<Vec<(u64, u16)>>>,
 }
@@ -464,6 +469,17 @@ fn check_phase(b: &Bench, dag: bool, clones: bool, qualified: &[String], p: &Pha
                         _ => {}
                     }
                     deliver(b, &t, 1, &m, p.now, &mut e);
+                }
+            }
+            Inj::QSource(s, msg) => {
+                let conns = &b.qsources[*s as usize];
+                for (_, t, m) in deliveries(b, conns, msg, true) {
+                    match &t {
+                        Target::Model(x) => started_m[*x as usize] += 1,
+                        Target::Orphan(x) => started_o[*x as usize] += 1,
+                        _ => {}
+                    }
+                    deliver(b, &t, 2, &m, p.now, &mut e);
                 }
             }
             Inj::Init => {
@@ -791,6 +807,28 @@ fn check_phase(b: &Bench, dag: bool, clones: bool, qualified: &[String], p: &Pha
                     }
                 }
             }
+            // replies of a query source, in connection order
+            if let Some((src, msg, got)) = &p.qs {
+                let conns = &b.qsources[*src as usize];
+                let exp: Vec<(u16, u64, u16)> = deliveries(b, conns, msg, true)
+                    .iter()
+                    .filter_map(|(ci, t, m)| match t {
+                        Target::Model(x) => Some((*x, expected_reply_id(&conns[*ci], *x, m.id), m.via)),
+                        _ => None,
+                    })
+                    .collect();
+                info.queries_checked += 1;
+                if exp.len() >= 2 {
+                    info.qsource_multi += 1;
+                }
+                if got.as_ref() != Some(&exp) {
+                    return Err(mfail(
+                        &["C14"],
+                        "query-source-replies",
+                        format!("{}: the receiver of query source {} yielded {:x?}, expected in connection order {:x?}", p.label, src, got, exp),
+                    ));
+                }
+            }
             // process_query reply
             if let Some((m, msg, got)) = &p.pq {
                 let plain = Conn {
@@ -960,6 +998,7 @@ pub fn check_mcase(c: &SCase, obs: &SObs) -> Result<MInfo, MFail> {
         err: &obs.init_err,
         sinks: None,
         pq: None,
+        qs: None,
         extra_sinks: None,
     };
     check_phase(&b, dag, clones, &q, &ph, &mut info)?;
@@ -990,6 +1029,7 @@ pub fn check_mcase(c: &SCase, obs: &SObs) -> Result<MInfo, MFail> {
         let eid = cmd_eid(i);
         let mut inj: Vec<Inj> = Vec::new();
         let mut pq = None;
+        let mut qs = None;
         let mut runs = true;
         match cmd {
             Cmd::ProcessEvent { model, script, ttl } => inj.push(Inj::Direct(
@@ -1021,6 +1061,16 @@ pub fn check_mcase(c: &SCase, obs: &SObs) -> Result<MInfo, MFail> {
                     via: 0,
                 },
             )),
+            Cmd::ProcessQuerySrc { src, script, ttl } => {
+                let m = RMsg {
+                    id: eid,
+                    script: *script,
+                    ttl: *ttl,
+                    via: 0,
+                };
+                qs = Some((*src, m.clone(), o.qreplies.clone()));
+                inj.push(Inj::QSource(*src, m));
+            }
             Cmd::Sched { model, dl: Dl::Rel(d), script, ttl, .. } => {
                 runs = false;
                 if o.sched != Some(0) {
@@ -1113,6 +1163,7 @@ pub fn check_mcase(c: &SCase, obs: &SObs) -> Result<MInfo, MFail> {
             err: &o.err,
             sinks: Some(&o.sinks),
             pq,
+            qs,
             extra_sinks: if i == 0 { Some(&init_sinks) } else { None },
         };
         check_phase(&b, dag, clones, &q, &ph, &mut info)?;
@@ -1296,13 +1347,18 @@ pub fn mbench_strategy(f: MFocus) -> BoxedStrategy<Bench> {
             (
                 proptest::collection::vec(raw_model(f, nscripts), n),
                 proptest::collection::vec(proptest::collection::vec(raw_conn(), 1..4), 0..3),
+                if f == MFocus::Query {
+                    proptest::collection::vec(proptest::collection::vec(raw_conn(), 0..6), 1..3).boxed()
+                } else {
+                    Just(Vec::<Vec<RawConn>>::new()).boxed()
+                },
                 if f == MFocus::Cyclic {
                     proptest::collection::vec(1usize..4, 0..3).boxed()
                 } else {
                     Just(vec![]).boxed()
                 },
             )
-                .prop_map(move |(raw, sources, orphans)| {
+                .prop_map(move |(raw, sources, qsources_raw, orphans)| {
                     let n = raw.len();
                     let norph = orphans.len();
                     let mut models: Vec<ModelSpec> = raw
@@ -1391,7 +1447,15 @@ pub fn mbench_strategy(f: MFocus) -> BoxedStrategy<Bench> {
                                     .collect::<Vec<_>>()
                             })
                             .collect(),
-                        qsources: vec![],
+                        qsources: qsources_raw
+                            .iter()
+                            .map(|v| {
+                                v.iter()
+                                    .map(|c| resolve_conn(f, None, n, norph, true, c))
+                                    .filter(|c| matches!(c.target, Target::Model(_)))
+                                    .collect::<Vec<_>>()
+                            })
+                            .collect(),
                         vclock: true,
                         tokens: false,
                     }
@@ -1400,7 +1464,7 @@ pub fn mbench_strategy(f: MFocus) -> BoxedStrategy<Bench> {
         .boxed()
 }
 
-fn mcmd_strategy(f: MFocus, n: u16, nsrc: u16, nscripts: u16) -> BoxedStrategy<Cmd> {
+fn mcmd_strategy(f: MFocus, n: u16, nsrc: u16, nqsrc: u16, nscripts: u16) -> BoxedStrategy<Cmd> {
     if f == MFocus::Wide {
         // mostly the hub (model 0), whose script 0 broadcasts to every leaf
         let model = prop_oneof![3 => Just(0u16), 1 => 0..n];
@@ -1443,6 +1507,14 @@ fn mcmd_strategy(f: MFocus, n: u16, nsrc: u16, nscripts: u16) -> BoxedStrategy<C
                     ttl,
                     period: None,
                 })
+                .boxed(),
+        ));
+    }
+    if nqsrc > 0 {
+        v.push((
+            5,
+            (0..nqsrc, 0..nscripts, ttl.clone())
+                .prop_map(|(src, script, ttl)| Cmd::ProcessQuerySrc { src, script, ttl })
                 .boxed(),
         ));
     }
@@ -1499,8 +1571,9 @@ pub fn mcase_strategy(f: MFocus, exec: BoxedStrategy<Exec>) -> BoxedStrategy<SCa
         .prop_flat_map(move |(bench, exec, start)| {
             let n = targetable_models(&bench) as u16;
             let ns = bench.sources.len() as u16;
+            let nqs = bench.qsources.len() as u16;
             let nscripts = bench.models[0].scripts.len() as u16;
-            proptest::collection::vec(mcmd_strategy(f, n, ns, nscripts), 1..10).prop_map(move |cmds| SCase {
+            proptest::collection::vec(mcmd_strategy(f, n, ns, nqs, nscripts), 1..10).prop_map(move |cmds| SCase {
                 bench: bench.clone(),
                 cmds,
                 exec: exec.clone(),
@@ -1544,6 +1617,9 @@ pub fn m_nontrivial(prop: &str, mt: bool, i: &MInfo) -> (bool, Vec<&'static str>
     }
     if i.query2_filtered > 0 {
         cl.push("query>=2-repliers+filtered-out");
+    }
+    if i.qsource_multi > 0 {
+        cl.push("query-source>=2-repliers");
     }
     if i.max_models_in_cmd >= 3 {
         cl.push(">=3-models-active-in-one-command");
@@ -1593,7 +1669,7 @@ pub fn m_nontrivial(prop: &str, mt: bool, i: &MInfo) -> (bool, Vec<&'static str>
         "C04" => i.max_models_in_cmd >= 3 && i.suspended_ops > 0 && (!mt || i.max_threads_in_cmd >= 2),
         "C05" => i.model_multi_handler > 0 && (i.suspended_ops > 0 || i.model_multi_thread > 0),
         "C06" => i.deadlocks + i.msglosses > 0 || (i.suspended_ops > 0 && i.max_models_in_cmd >= 3),
-        "C14" => i.query2_filtered > 0 || (i.clone_conn_used > 0 && i.handlers > 2),
+        "C14" => i.query2_filtered > 0 || i.qsource_multi > 0 || (i.clone_conn_used > 0 && i.handlers > 2),
         "C16" => i.submodels > 0 && i.init_sends_to_other > 0,
         "C17" => i.sink_multi_group > 0,
         _ => i.handlers > 0,
